@@ -79,6 +79,9 @@ func (k kase) common() keys.Common {
 	if strings.HasSuffix(sess, "+dkg") { // key shares from the real Gennaro DKG instead of the trusted dealer
 		sess, src = strings.TrimSuffix(sess, "+dkg"), "gennaro"
 	}
+	if strings.HasSuffix(sess, "+cdkg") { // ... from the real Canetti DKG
+		sess, src = strings.TrimSuffix(sess, "+cdkg"), "canetti"
+	}
 	return keys.Common{Seed: k.Seed, Prop: "C01", Quorum: k.Quorum, Session: sess, KeySource: src, API: api, Message: k.message()}
 }
 
@@ -246,8 +249,10 @@ func generate(seed int64, tier string, search bool) []kase {
 			if i%5 == 3 {
 				sess = "real"
 			}
-			if i%4 == 1 {
+			if i%8 == 1 {
 				sess += "+dkg"
+			} else if i%8 == 5 {
+				sess += "+cdkg"
 			}
 			if i%3 == 2 && (sp.proto == "dkls23" || sp.proto == "lindell22") {
 				sess += "+runner"
@@ -325,7 +330,7 @@ func main() {
 	res.Rule = "full protocol runs of the real implementation (round functions driven through harness/internal/drive, every message through CBOR): " +
 		"protocol x variant (DKLs23 bbot/softspoken x k256/p256 x hash; Lindell22 x bip340/mina/vanilla(+neg,+le,p256); Boldyreva x short/long x basic/aug/pop; Lindell17; CGGMP21) x " +
 		"policy family (threshold, unanimity, CNF incl. non-ideal, hierarchical, gate trees with repeated leaves) x ID assignment (ordinal, sparse unsorted, >= 2^40) x " +
-		"quorum (minimal / non-minimal, presented unsorted) x message (empty, 1 byte, 10 kB, short random) x session contexts (seeded / real setup protocol) x key source (trusted dealer / real Gennaro DKG) x API (round-by-round / networked runner over an in-memory transport) x seed; " +
+		"quorum (minimal / non-minimal, presented unsorted) x message (empty, 1 byte, 10 kB, short random) x session contexts (seeded / real setup protocol) x key source (trusted dealer / real Gennaro DKG / real Canetti DKG) x API (round-by-round / networked runner over an in-memory transport) x seed; " +
 		"non-trivial = the run got past construction of all cosigners"
 
 	var cases []kase
@@ -409,6 +414,7 @@ func main() {
 	groups := map[string]*outcome{}
 	for i, o := range outs {
 		res.Count(o.class, o.k.text(), o.nontrivial)
+		res.Distribution["setup:"+o.k.Session]++ // session contexts + key source + API of the case (second view of the same cases)
 		id := fmt.Sprintf("case-%d", i)
 		if o.propKey != "" {
 			res.Mismatch(vh.Mismatch{ID: id, Kind: "prop", Key: o.propKey, Detail: o.propDetail, Case: o.k.text(), PropFail: true,
@@ -448,7 +454,7 @@ func main() {
 			fmt.Fprintf(os.Stderr, "%6.1fs %s\n", outs[i].secs, firstN(outs[i].k.text(), 150))
 		}
 	}
-	res.Note("independent verifiers: crypto/ecdsa on elliptic.P256 (P-256 ECDSA), math/big affine secp256k1 (ECDSA, BIP-340, vanilla Schnorr), crypto/elliptic P-256 Schnorr equation, BLS pairing equation through the library's pairing; Mina has no independent verifier (Poseidon): library verifier + exponent tie only")
+	res.Note("independent verifiers: crypto/ecdsa on elliptic.P256 (P-256 ECDSA), math/big affine secp256k1 (ECDSA, BIP-340, vanilla Schnorr), crypto/elliptic P-256 Schnorr equation, BLS pairing equation through the library's pairing; Mina has no independent verifier (Poseidon): library verifier, the library verifier on the signature re-parsed from its wire form (also for BIP-340), and the exponent tie")
 	res.Note("model tie: DKLs23 r_i, phi_i and Lindell22 k_i are read off the tapes (48-byte little-endian reads reduced mod q by the model); VOLE/OT internals (chi, c, d), PRZS/HJKY zero shares and additive key shares are not visible on the tapes: the model is run on synthetic values satisfying vole_product / to_additive_sums / zero_sum and compared on what is visible (R, sum u, sum w, s, recovery id)")
 	res.Write(a.Out)
 }
